@@ -70,6 +70,12 @@ class FixSession(common.AsyncSession):
             await self.close()
             raise
 
+        if not self.is_active():
+            # the connection was lost while the logon response was being delivered: starting the
+            # heartbeat monitors now would leave them running on a closed session
+            await self.close()
+            raise ConnectionRefusedError('Connection reset by server.')
+
         self.log.debug('%s> received logon response: %s', self.session_id, logon_resp)
         self.log.debug('%s> login success', self.session_id)
         self.start_dispatching()
